@@ -60,6 +60,9 @@ type Check struct {
 	// HangIsViolation: a plan that does not finish within HangS seconds counts
 	// as a violation "<ID>/operation-never-returns" (default: harness trouble).
 	HangIsViolation bool
+	// NondeterminismIsTheProperty: a violation observed by a worker is reported even when the
+	// replay of its plan does not reproduce it (C06: the divergence itself may be nondeterministic).
+	NondeterminismIsTheProperty bool
 }
 
 var registry = map[string]*Check{}
